@@ -301,7 +301,9 @@ func c12Histories(r *mc.Run) {
 		c12op{"Now=explicit(T0+70d)", 2, 70, 0}, c12op{"env:pck-crl-lists-A's-leaf", 7, 1, 0}, c12op{"env:crls-clean", 7, 0, 0},
 		// a time set of which the caller fills in the certificate-chain member only, and the caller moving the
 		// time set it owns forward in place (no new value assigned to Options.Now)
-		c12op{"Now={PckCertChain:T0}", 9, 0, 0}, c12op{"Now+=30d-in-place", 10, 30, 0})
+		c12op{"Now={PckCertChain:T0}", 9, 0, 0}, c12op{"Now+=30d-in-place", 10, 30, 0},
+		// the reporting function as a call of its own, with the switches the caller last set or sets for it
+		c12op{"report(A,L2)", 11, 0, 2}, c12op{"report(A,L1)", 11, 0, 1})
 	if r.Thorough() {
 		ops = append(ops, c12op{"Now=explicit(T0+22d)", 2, 22, 0}, c12op{"env:A's-tcb-level-Revoked", 8, 1, 0}, c12op{"env:A's-tcb-level-UpToDate", 8, 0, 0})
 	}
@@ -357,6 +359,16 @@ func c12Histories(r *mc.Run) {
 			curRoots := roots
 			envCrl, envTcb, rootsID := 0, 0, 5
 			curGetter := getter
+			curLvl := 0 // the switches as the caller last set them (a caller assigns them when they change, not before every call)
+			setLvl := func(l int) {
+				if l != curLvl {
+					shared.GetCollateral, shared.CheckRevocations = l == 1 || l == 2, l >= 2
+					curLvl = l
+				}
+			}
+			switchesIntact := func() bool {
+				return shared.GetCollateral == (curLvl == 1 || curLvl == 2) && shared.CheckRevocations == (curLvl >= 2) && shared.TrustedRoots == curRoots
+			}
 			for step, oi := range hist {
 				op := ops[oi]
 				last := step == len(hist)-1
@@ -402,8 +414,30 @@ func c12Histories(r *mc.Run) {
 				case 8:
 					envTcb = op.q
 					curGetter = envGetter(envCrl, envTcb)
+				case 11:
+					setLvl(op.lvl)
+					shared.Getter = curGetter.Clone()
+					var rerr error
+					func() {
+						defer world.Recover(&rerr)
+						_, _, rerr = verify.SupportedTcbLevelsFromCollateral(quotes[op.q].q, shared)
+					}()
+					if last {
+						id := "hist/init:" + initName + "/" + c12HistName(ops, hist)
+						if r.Want(id) {
+							out := verdict(rerr)
+							if world.IsPanic(rerr) {
+								r.Violate("history:panic:"+crashSite(rerr), id, "SupportedTcbLevelsFromCollateral through a re-used options value crashes: "+errStr(rerr), map[string]any{"history": c12HistNames(ops, hist)})
+							} else if !switchesIntact() {
+								r.Violate("history:call-changed-the-switches:report", id, fmt.Sprintf("SupportedTcbLevelsFromCollateral left the caller's options with GetCollateral=%v CheckRevocations=%v (the caller set level %s)", shared.GetCollateral, shared.CheckRevocations, lvlNames[curLvl]), map[string]any{"history": c12HistNames(ops, hist)})
+								out += "!switches"
+							}
+							r.Eval(id, true, "report:"+out)
+						}
+					}
+					continue
 				case 0:
-					shared.GetCollateral, shared.CheckRevocations = op.lvl == 1 || op.lvl == 2, op.lvl >= 2
+					setLvl(op.lvl)
 					shared.Getter = curGetter.Clone()
 					q := quotes[op.q].q
 					err := world.SafeVerify(q, shared)
@@ -413,6 +447,9 @@ func c12Histories(r *mc.Run) {
 					id := "hist/init:" + initName + "/" + c12HistName(ops, hist)
 					if !r.Want(id) {
 						continue
+					}
+					if !switchesIntact() && !world.IsPanic(err) {
+						r.Violate("history:call-changed-the-switches:verify", id, fmt.Sprintf("verification left the caller's options with GetCollateral=%v CheckRevocations=%v (the caller set level %s) or another pool", shared.GetCollateral, shared.CheckRevocations, lvlNames[curLvl]), map[string]any{"history": c12HistNames(ops, hist)})
 					}
 					fo0 := fresh(op.lvl, nowNil, nowAt, curGetter)
 					fo0.TrustedRoots = curRoots
@@ -448,7 +485,7 @@ func c12Histories(r *mc.Run) {
 					r.Eval("hist/init:"+initName+"/"+c12HistName(ops, hist), true, "env-op")
 				}
 			}
-			return fmt.Sprintf("%s|t=%s|env=%d,%d|roots=%d|partial=%v", c12StateKey(shared), vsched.Elapsed(), envCrl, envTcb, rootsID, nowPartial), true
+			return fmt.Sprintf("%s|t=%s|env=%d,%d|roots=%d|partial=%v|lvl=%d", c12StateKey(shared), vsched.Elapsed(), envCrl, envTcb, rootsID, nowPartial, curLvl), true
 		})
 	}
 	_ = ref.MustAccept
